@@ -87,6 +87,7 @@ func suiteHistory(args []string) {
 	encoderSessions(r, rep, *n)
 	userTypeShapes(r, rep)
 	embeddedShapes(rep)
+	transplants(r, rep)
 	rep.emit()
 }
 
@@ -272,6 +273,63 @@ func embeddedShapes(rep *Report) {
 					rep.Violations = append(rep.Violations, map[string]interface{}{"kind": "user-type", "what": "Decode rejects the bytes Encode produced for a user-defined structure with an embedded structure", "value": c.name, "error": derr.Error()})
 				}
 			}()
+		}
+	}
+}
+
+// transplants (C19 / C02): a structure that came out of Decode is a plain value: moved into a field with another tag it goes
+// on the wire under THAT field's tag.  For every structure type with two fields of one structure type under different
+// tags: encode, decode, swap the two decoded fields, encode - and compare with encoding the literal with the fields swapped.
+func transplants(r *rand.Rand, rep *Report) {
+	for _, tn := range sortedTypeNames() {
+		t := genTypes[tn]
+		var idx []int
+		for _, i := range kmipFields(t) {
+			ft := t.Field(i).Type
+			if ft.Kind() == reflect.Struct && ft != reflect.TypeOf(time.Time{}) {
+				idx = append(idx, i)
+			}
+		}
+		for a := 0; a < len(idx); a++ {
+			for b := a + 1; b < len(idx); b++ {
+				i, j := idx[a], idx[b]
+				if t.Field(i).Type != t.Field(j).Type || t.Field(i).Tag.Get("kmip") == t.Field(j).Tag.Get("kmip") {
+					continue
+				}
+				for k := 0; k < 3; k++ {
+					v := (&gen{r: r, wf: true}).genTop(tn)
+					rv := reflect.ValueOf(v)
+					if rv.Kind() == reflect.Ptr {
+						rv = rv.Elem()
+					}
+					_, enc := implEncode(rv.Interface())
+					if enc == nil {
+						continue
+					}
+					dec := reflect.New(t)
+					if err := kmip.NewDecoder(bytes.NewReader(enc)).Decode(dec.Interface()); err != nil {
+						continue
+					}
+					swap := func(x reflect.Value) reflect.Value {
+						c := reflect.New(t).Elem()
+						c.Set(x)
+						tmp := reflect.New(t.Field(i).Type).Elem()
+						tmp.Set(c.Field(i))
+						c.Field(i).Set(c.Field(j))
+						c.Field(j).Set(tmp)
+						return c
+					}
+					_, want := implEncode(swap(rv).Interface())
+					_, got := implEncode(swap(dec.Elem()).Interface())
+					rep.Evaluations++
+					rep.Distribution["transplant"]++
+					if want != nil && !bytes.Equal(got, want) && len(rep.Violations) < 12 {
+						rep.Violations = append(rep.Violations, map[string]interface{}{"kind": "transplant",
+							"what": "a decoded structure moved into a field with another tag is not emitted under that field's tag (or not with the same bytes as the literal value)",
+							"type": tn, "fields": t.Field(i).Name + " <-> " + t.Field(j).Name, "literal": hexBytes(want), "decoded_then_moved": hexBytes(got)})
+					}
+				}
+			}
 		}
 	}
 }
